@@ -3,7 +3,7 @@ import z3
 
 from pyvc.contracts import Al, Q, contract, inline
 from pyvc.core import B, I, Ref, uf
-from .lib import EOM_RISE, FALL, RISE, T, fget, fnone, modbw, modbw_none, valid_channel_f, AXIOMS
+from .lib import EOM_RISE, FALL, RISE, T, fget, fnone, modbw, modbw_none, valid_channel_f, AXIOMS, PI
 
 PF = "pulser-core/pulser/pulse.py"
 WF = "pulser-core/pulser/waveforms.py"
@@ -18,7 +18,11 @@ def Rm(ch, eom):
 
 
 inline(PF, "Pulse.duration")
-inline(WF, "Waveform.duration")
+from .lib import WDUR  # noqa: E402
+contract(WF, "Waveform.duration", props=("C02", "C16"), trusted=True,
+         note="abstract property: this is the interface contract; each concrete subclass's duration is verified against it (C16 set)",
+         params={"self": ("ref", "Waveform")}, result="int",
+         ensures=lambda c: [("is_WDUR", T(c.res) == WDUR(T(c.self))), ("positive", T(c.res) >= 1)])
 
 contract(EOMF, "BaseEOM.rise_time", props=("C10", "C15"),
          params={"self": ("ref", "BaseEOM")}, result="int",
@@ -57,3 +61,59 @@ contract(PF, "Pulse.fall_time", props=("C02", "C03", "C10", "C18"),
              ("at-most-twice-channel-rise", T(c.res) <= 2 * RISE(T(c.channel))),
              ("nonneg", T(c.res) >= 0),
          ])
+
+from .lib import IS_DETUNED_DELAY, p_duration, p_phase  # noqa: E402
+from pyvc.core import R  # noqa: E402
+
+CONST_AMP = uf("CONST_AMP", Ref, R)    # value of a constant pulse's amplitude
+CONST_DET = uf("CONST_DET", Ref, R)
+IS_CONST = uf("IS_CONST", Ref, B)      # both waveforms are ConstantWaveform
+
+contract(PF, "Pulse.ConstantPulse", props=("C02", "C15", "C16"), trusted=True,
+         note="constructor chain ConstantWaveform/Pulse.__init__ (numpy sample arrays); proved field-wise in the C16 set",
+         params={"cls": "opaque", "duration": "int", "amplitude": "real", "detuning": "real", "phase": "real", "post_phase_shift": "real"},
+         result=("ref", "Pulse"),
+         requires=lambda c: [],
+         raises={"ValueError": ("only-if", lambda c: z3.Or(T(c.duration) < 1, T(c.amplitude) < 0))},
+         ensures=lambda c: [
+             ("duration", p_duration(T(c.res)) == T(c.duration)),
+             ("const", z3.And(IS_CONST(T(c.res)), CONST_AMP(T(c.res)) == T(c.amplitude), CONST_DET(T(c.res)) == T(c.detuning))),
+             ("detuned-delay-iff-zero-amp", IS_DETUNED_DELAY(T(c.res)) == (T(c.amplitude) == 0)),
+             ("phase-in-range", z3.And(p_phase(T(c.res)) >= 0, p_phase(T(c.res)) < 2 * PI)),
+             ("phase-unchanged-in-range", z3.Implies(z3.And(T(c.phase) >= 0, T(c.phase) < 2 * PI), p_phase(T(c.res)) == T(c.phase))),
+         ])
+
+P_AMP = lambda p: uf("Pulse.amplitude", Ref, Ref)(p)
+P_DET = lambda p: uf("Pulse.detuning", Ref, Ref)(p)
+P_PPS = lambda p: uf("Pulse.post_phase_shift", Ref, R)(p)
+
+
+NEGAMP = uf("NEGAMP", Ref, B)   # some sample of the waveform is negative
+
+
+def valid_pulse(p):
+    """class invariant of Pulse objects (postcondition of Pulse.__init__)."""
+    return z3.And(WDUR(P_AMP(p)) == WDUR(P_DET(p)), z3.Not(NEGAMP(P_AMP(p))), WDUR(P_AMP(p)) >= 1,
+                  p_phase(p) >= 0, p_phase(p) < 2 * PI)
+
+
+def mod2pi(x, r):
+    """r == x mod 2*PI  (A-REAL): r in [0, 2PI) and x - r is an integer multiple of 2PI."""
+    k = uf("MOD2PI_K", R, I)(x)
+    return z3.And(r >= 0, r < 2 * PI, x == r + 2 * PI * z3.ToReal(k))
+
+
+contract(PF, "Pulse.__init__", props=("C01", "C07", "C16"), trusted=True,
+         note="reads numpy sample arrays (np.any(amplitude.samples < 0)); field-wise effect stated; the sample clause is proved per waveform class in the C16 set",
+         params={"self": ("ref", "Pulse"), "amplitude": ("ref", "Waveform"), "detuning": ("ref", "Waveform"), "phase": "real", "post_phase_shift": "real"},
+         result=("ref", "Pulse"),
+         raises={"ValueError": lambda c: z3.Or(WDUR(T(c.amplitude)) != WDUR(T(c.detuning)), NEGAMP(T(c.amplitude)))},
+         ensures=lambda c: [
+             ("valid", valid_pulse(T(c.res))),
+             ("waveforms", z3.And(P_AMP(T(c.res)) == T(c.amplitude), P_DET(T(c.res)) == T(c.detuning))),
+             ("equal-durations", WDUR(T(c.amplitude)) == WDUR(T(c.detuning))),
+             ("phase-mod-2pi", mod2pi(T(c.phase), p_phase(T(c.res)))),
+             ("post-phase-shift-mod-2pi", mod2pi(T(c.post_phase_shift), P_PPS(T(c.res)))),
+             ("detuned-delay-depends-on-waveforms", IS_DETUNED_DELAY(T(c.res)) == uf("IDD_W", Ref, Ref, B)(T(c.amplitude), T(c.detuning))),
+         ])
+inline("pulser-core/pulser/sequence/_schedule.py", "_PhaseDriftParams.calc_phase_drift")
